@@ -38,3 +38,13 @@ func VerifWorkDirRegistered(dir string) bool {
 	defer workDirInUseMutex.Unlock()
 	return workDirsInUse[dir] == 1
 }
+
+// VerifShiftLastUpdateFinish moves the refresh-finish timestamp(s) consulted by the given checkers into the past by d
+// (emulates the passing of time without sleeping). A zero timestamp stays zero.
+func VerifShiftLastUpdateFinish(d time.Duration, checkers ...*CRLRevocationChecker) {
+	crlUpdateMutex.Lock()
+	defer crlUpdateMutex.Unlock()
+	if !lastCrlUpdateFinishTime.IsZero() {
+		lastCrlUpdateFinishTime = lastCrlUpdateFinishTime.Add(-d)
+	}
+}
